@@ -54,6 +54,9 @@ func runHist(line string, out *bufio.Writer) {
 			b.WriteString(" | panic " + msg)
 			break
 		}
+		if op.Silent {
+			continue
+		}
 		msg = vproto.Safe(func() {
 			var s strings.Builder
 			root, _, _ := tree.VerifWalk(70)
